@@ -94,6 +94,20 @@ func runC08(r *mc.Run) {
 	val := func(f optField) []byte { return append([]byte(nil), raw0[f.off:f.off+f.len]...) }
 
 	add("nil-options-fields", raw0, &validate.Options{})
+	// a quote without QE authentication data (length 0): as bytes, as parsed message and as a message that crossed
+	// the protobuf wire (where the empty data field arrives as nil)
+	if bs := c01Baselines(); len(bs) > 1 {
+		raw1 := bs[1].raw
+		add("authless/no-expectations", raw1, &validate.Options{})
+		o1 := &validate.Options{}
+		for _, f := range optFields {
+			f.set(o1, append([]byte(nil), raw1[f.off:f.off+f.len]...))
+		}
+		add("authless/every-exact-field-pinned-to-its-own-value", raw1, o1)
+		o2 := &validate.Options{}
+		optFields[3].set(o2, bytes.Repeat([]byte{0x5a}, optFields[3].len))
+		add("authless/one-field-pinned-to-another-value", raw1, o2)
+	}
 	// 1. each exact-match option on its own
 	for _, f := range optFields {
 		for _, kind := range []string{"nil", "empty", "equal", "short", "long", "first", "last"} {
@@ -582,6 +596,15 @@ func runC08(r *mc.Run) {
 				e2 := safeValidate(q, c.opts)
 				if (e2 == nil) != (err == nil) && !world.IsPanic(err) {
 					r.Violate("raw-vs-message:"+kindOf(c.id), c.id, "validate.TdxQuote and validate.RawTdxQuote disagree", nil)
+				}
+				// the message as another process would receive it (protobuf wire form: empty byte fields become nil)
+				if wire, merr := proto.Marshal(q); merr == nil && (i%4 == 0 || kindOf(c.id) == "authless") {
+					q3 := &pb.QuoteV4{}
+					if proto.Unmarshal(wire, q3) == nil {
+						if e3 := safeValidate(q3, c.opts); (e3 == nil) != (err == nil) && !world.IsPanic(err) {
+							r.Violate("raw-vs-wire-message:"+kindOf(c.id), c.id, "validate.RawTdxQuote and validate.TdxQuote on the message after a protobuf wire round trip disagree: "+errStr(e3), nil)
+						}
+					}
 				}
 			}
 			r.Eval(c.id, c.id != "nil-options-fields", kindOf(c.id)+":"+out)
